@@ -209,6 +209,7 @@ Qed.
 Section Oracle.
   Variable mmap : list region -> Z -> Z.
   Variable gsz dsz : Z.
+  Variable D : list (Z * Z).   (* blocks cached in lists that were dropped at an earlier myth_fini *)
   Hypothesis mmap_fresh : forall regs len r, 0 < len -> In r regs -> disj (mmap regs len, len) r.
   Hypothesis gsz_ok : 16 <= gsz /\ gsz + 4095 < 2 ^ 64.
   Hypothesis dsz_ok : 1 <= dsz /\ dsz + 4095 < 2 ^ 64.
@@ -224,15 +225,15 @@ Section Oracle.
   Definition def_ok (m : mem) (e : nat * Z) : Prop := load m (snd e + 8) = 0.
 
   Definition SInv (h : hs) : Prop :=
-    BInv (all_blocks gsz dsz h) (fl_regs (s_fl (hs_st h))) /\
+    BInv (all_blocks gsz dsz h ++ D) (fl_regs (s_fl (hs_st h))) /\
     Forall (word_ok (s_mem (hs_st h))) (hs_live h) /\
     Forall desc_ok (hs_live h) /\
     Forall (def_ok (s_mem (hs_st h))) (s_def (hs_st h)).
 
-  Lemma SInv_init : SInv hs_init.
+  (** the state at the start of an epoch: all lists empty *)
+  Lemma SInv_start R m : BInv D R -> SInv (mkHs (mkS (mkFl [] R) [] [] m) []).
   Proof.
-    split; [|split; [constructor|split; constructor]].
-    split; [exact I|]. split; [exact I|]. intros b [].
+    intros H. split; [exact H|]. split; [constructor|]. split; constructor.
   Qed.
 
   Lemma def_blk_holds top :
@@ -281,11 +282,11 @@ Section Oracle.
     - rewrite Forall_forall in *. intros e He. eapply def_ok_frame; [apply HDf; exact He|apply HF, HD, He|exact H1|exact H2].
   Qed.
 
-  Lemma in_live_blocks (h : hs) it : In it (hs_live h) -> In (i_blk it) (all_blocks gsz dsz h).
-  Proof. intros H. unfold all_blocks. apply in_or_app. left. apply in_map. exact H. Qed.
-  Lemma in_def_blocks (h : hs) e : In e (s_def (hs_st h)) -> In (def_blk gsz (snd e)) (all_blocks gsz dsz h).
+  Lemma in_live_blocks (h : hs) it : In it (hs_live h) -> In (i_blk it) (all_blocks gsz dsz h ++ D).
+  Proof. intros H. apply in_or_app. left. unfold all_blocks. apply in_or_app. left. apply in_map. exact H. Qed.
+  Lemma in_def_blocks (h : hs) e : In e (s_def (hs_st h)) -> In (def_blk gsz (snd e)) (all_blocks gsz dsz h ++ D).
   Proof.
-    intros H. unfold all_blocks, free_blocks. apply in_or_app. right. apply in_or_app. right.
+    intros H. apply in_or_app. left. unfold all_blocks, free_blocks. apply in_or_app. right. apply in_or_app. right.
     apply in_or_app. left. apply (in_map (fun e => def_blk gsz (snd e))). exact H.
   Qed.
 
@@ -302,7 +303,7 @@ Section Oracle.
         * injection Hst as <-. apply pop_w_perm in Ep.
           assert (Hin : In (w, top) (s_def st)) by (eapply Permutation_in; [apply Permutation_sym; exact Ep|left; reflexivity]).
           split; [|split; [|split]]; cbn [hs_st hs_live s_fl s_mem s_def].
-          -- eapply BInv_perm; [|exact HB]. unfold all_blocks, free_blocks. cbn [hs_st hs_live s_fl s_def s_desc map i_blk app].
+          -- eapply BInv_perm; [|exact HB]. apply Permutation_app_tail. unfold all_blocks, free_blocks. cbn [hs_st hs_live s_fl s_def s_desc map i_blk app].
              rewrite !app_assoc. rewrite <- !app_assoc.
              rewrite (app_assoc (map i_blk live)).
              eapply perm_trans; [apply (perm_pull (map i_blk live ++ map blk_of_ent (fl_lists (s_fl st)))
@@ -320,10 +321,10 @@ Section Oracle.
           set (top := a + gsz - 16) in *.
           destruct (round_page_spec gsz ltac:(lia) G2) as (Hr & _ & _). fold len in Hr.
           assert (Hblk : def_blk gsz top = (a, len)) by (unfold def_blk, top; f_equal; lia).
-          assert (HB' : BInv ((a, len) :: all_blocks gsz dsz (mkHs st live)) ((a, len) :: fl_regs (s_fl st))).
+          assert (HB' : BInv ((a, len) :: all_blocks gsz dsz (mkHs st live) ++ D) ((a, len) :: fl_regs (s_fl st))).
           { apply (BInv_fresh mmap _ _ a len [(a, len)] mmap_fresh HB); [lia|reflexivity|cbn; split; [constructor|exact I]|].
             intros b [<-|[]]. cbn. unfold inside; cbn. lia. }
-          destruct (frame_all (mkHs st live) (a, len) (top + 8) 0 (all_blocks gsz dsz (mkHs st live)))
+          destruct (frame_all (mkHs st live) (a, len) (top + 8) 0 (all_blocks gsz dsz (mkHs st live) ++ D))
             as (HW' & HDf'); [exact (proj1 HB')|apply in_live_blocks|apply in_def_blocks| | |exact HW|exact HDf|];
             [cbn; unfold top; lia|cbn; unfold top; lia|].
           split; [|split; [|split]]; cbn [hs_st hs_live s_fl s_mem s_def add_region fl_regs].
@@ -350,14 +351,14 @@ Section Oracle.
         replace (top - r + 16) with b by (unfold top; lia).
         assert (HB' : exists rest, Permutation (all_blocks gsz dsz (mkHs (mkS f' (s_def st) (s_desc st) (store (s_mem st) (top + 8) r))
                                                   (mkI true top (b, 2 ^ i) r :: live))) ((b, 2 ^ i) :: rest) /\
-                                   BInv ((b, 2 ^ i) :: rest) (fl_regs f') /\
+                                   BInv (((b, 2 ^ i) :: rest) ++ D) (fl_regs f') /\
                                    (forall x, In x (map i_blk live) -> In x rest) /\
                                    (forall e, In e (s_def st) -> In (def_blk gsz (snd e)) rest)).
         { destruct (flmalloc_cases mmap _ _ _ _ _ _ _ Ec Efl) as [(Hregs & HP)|(len & newb & Hregs & Ha & Hlen & HP & Hnew & Hin)].
           - exists (map i_blk live ++ map blk_of_ent (fl_lists f') ++ map (fun e => def_blk gsz (snd e)) (s_def st)
                       ++ map (fun e => desc_blk dsz (snd e)) (s_desc st)).
             split; [apply Permutation_refl|]. split; [|split].
-            + rewrite Hregs. eapply BInv_perm; [|exact HB].
+            + rewrite Hregs. eapply BInv_perm; [|exact HB]. apply Permutation_app_tail.
               unfold all_blocks, free_blocks. cbn [hs_st hs_live s_fl s_def s_desc].
               apply (perm_pull (map i_blk live) _ _ _ _ HP).
             + intros x Hx. apply in_or_app. left. exact Hx.
@@ -368,6 +369,7 @@ Section Oracle.
             split; [apply Permutation_refl|]. split; [|split].
             + rewrite Hregs. eapply BInv_perm;
                 [|apply (BInv_fresh mmap _ _ b len newb mmap_fresh HB Hlen Ha Hnew Hin)].
+              rewrite app_assoc. apply Permutation_app_tail.
               unfold all_blocks, free_blocks. cbn [hs_st hs_live s_fl s_def s_desc].
               (* newb ++ L ++ F1 ++ R  ~  (b,2^i) :: L ++ F1' ++ R   with  (b,2^i)::F1' ~ newb ++ F1 *)
               set (L := map i_blk live). set (R := map (fun e => def_blk gsz (snd e)) (s_def st) ++ map (fun e => desc_blk dsz (snd e)) (s_desc st)).
@@ -378,11 +380,12 @@ Section Oracle.
             + intros e He. apply in_or_app. right. apply in_or_app. right. apply in_or_app. left.
               apply (in_map (fun e => def_blk gsz (snd e))). exact He. }
         destruct HB' as (rest & HPall & HBr & HLr & HDr).
-        destruct (frame_all (mkHs st live) (b, 2 ^ i) (top + 8) r rest) as (HW' & HDf');
-          [exact (proj1 HBr)|intros it Hit; apply HLr, in_map, Hit|exact HDr| | |exact HW|exact HDf|];
+        destruct (frame_all (mkHs st live) (b, 2 ^ i) (top + 8) r (rest ++ D)) as (HW' & HDf');
+          [exact (proj1 HBr)|intros it Hit; apply in_or_app; left; apply HLr, in_map, Hit
+          |intros e He; apply in_or_app; left; apply HDr, He| | |exact HW|exact HDf|];
           [cbn; unfold top; lia|cbn; unfold top; lia|].
         split; [|split; [|split]]; cbn [hs_st hs_live s_fl s_mem s_def].
-        -- eapply BInv_perm; [apply Permutation_sym; exact HPall|exact HBr].
+        -- eapply BInv_perm; [apply Permutation_app_tail, Permutation_sym; exact HPall|exact HBr].
         -- constructor; [|exact HW']. intros _. cbn [i_ptr i_word i_blk fst snd].
            split; [apply load_store_same|]. split; [unfold top; lia|]. split; [unfold top; lia|].
            right. split; [lia|]. exists i. split; [exact Ec|]. f_equal. unfold top. lia.
@@ -401,7 +404,7 @@ Section Oracle.
       destruct Hsh as [(Hw0 & Hblk)|(Hwn & i & Hci & Hblk)].
       + rewrite Hw0 in Hst. cbn [Z.eqb] in Hst. injection Hst as <-.
         split; [|split; [|split]]; cbn [hs_st hs_live s_fl s_mem s_def].
-        * eapply BInv_perm; [|exact HB]. unfold all_blocks, free_blocks. cbn [hs_st hs_live s_fl s_def s_desc map snd].
+        * eapply BInv_perm; [|exact HB]. apply Permutation_app_tail. unfold all_blocks, free_blocks. cbn [hs_st hs_live s_fl s_def s_desc map snd].
           rewrite <- Hblk.
           apply (perm_push (map i_blk live) (map i_blk l') (map blk_of_ent (fl_lists (s_fl st))) _ _ (i_blk it) HPb).
         * exact HW'.
@@ -410,7 +413,7 @@ Section Oracle.
       + destruct (i_word it =? 0) eqn:E0; [apply Z.eqb_eq in E0; contradiction|].
         unfold flfree in Hst. rewrite Hci in Hst. injection Hst as <-.
         split; [|split; [|split]]; cbn [hs_st hs_live s_fl s_mem s_def fl_regs].
-        * eapply BInv_perm; [|exact HB]. unfold all_blocks, free_blocks. cbn [hs_st hs_live s_fl s_def s_desc fl_lists map].
+        * eapply BInv_perm; [|exact HB]. apply Permutation_app_tail. unfold all_blocks, free_blocks. cbn [hs_st hs_live s_fl s_def s_desc fl_lists map].
           change (blk_of_ent (w, i, top - i_word it + 16)) with (top - i_word it + 16, 2 ^ i). rewrite <- Hblk.
           apply (perm_push (map i_blk live) (map i_blk l') [] _ _ (i_blk it) HPb).
         * exact HW'.
@@ -420,7 +423,7 @@ Section Oracle.
       unfold desc_get in Hst. destruct (pop_w w (s_desc st)) as [[p r]|] eqn:Ep.
       + injection Hst as <-. apply pop_w_perm in Ep.
         split; [|split; [|split]]; cbn [hs_st hs_live s_fl s_mem s_def].
-        * eapply BInv_perm; [|exact HB]. unfold all_blocks, free_blocks. cbn [hs_st hs_live s_fl s_def s_desc map i_blk app].
+        * eapply BInv_perm; [|exact HB]. apply Permutation_app_tail. unfold all_blocks, free_blocks. cbn [hs_st hs_live s_fl s_def s_desc map i_blk app].
           rewrite !app_assoc. apply perm_pull_end.
           apply (Permutation_map (fun e => desc_blk dsz (snd e))) in Ep. exact Ep.
         * constructor; [intros Hk; discriminate|exact HW].
@@ -446,7 +449,7 @@ Section Oracle.
       assert (HPb : Permutation (map i_blk live) (i_blk it :: map i_blk l')) by (apply (Permutation_map i_blk) in HPl; exact HPl).
       injection Hst as <-.
       split; [|split; [|split]]; cbn [hs_st hs_live s_fl s_mem s_def desc_release].
-      + eapply BInv_perm; [|exact HB]. unfold all_blocks, free_blocks. cbn [hs_st hs_live s_fl s_def s_desc desc_release map snd].
+      + eapply BInv_perm; [|exact HB]. apply Permutation_app_tail. unfold all_blocks, free_blocks. cbn [hs_st hs_live s_fl s_def s_desc desc_release map snd].
         rewrite <- Hblk.
         pose proof (perm_push (map i_blk live) (map i_blk l')
                       (map blk_of_ent (fl_lists (s_fl st)) ++ map (fun e => def_blk gsz (snd e)) (s_def st))
@@ -465,15 +468,10 @@ Section Oracle.
       eapply IH; [eapply sstep_inv; eassumption|exact H].
   Qed.
 
-  (** For every history of stack / record requests and well-formed releases on any number of
-      workers: all blocks behind live stacks, live records and free-list entries (class lists,
-      default-stack lists, record lists of all workers) are pairwise disjoint and inside
-      regions obtained from mmap; the memory a live thread uses as its stack lies inside its
-      block; and a release performed now would recompute exactly that block (its size word is
-      intact whatever other stacks were handed out and written in the meantime). *)
-  Theorem stack_histories : forall ops h, srun mmap gsz dsz ops hs_init = Some h ->
-    pairwise (all_blocks gsz dsz h) /\
-    (forall b, In b (all_blocks gsz dsz h) ->
+  (** from any state that satisfies the invariant (the start of an epoch) *)
+  Theorem stack_histories_from : forall ops h0 h, SInv h0 -> srun mmap gsz dsz ops h0 = Some h ->
+    pairwise (all_blocks gsz dsz h ++ D) /\
+    (forall b, In b (all_blocks gsz dsz h ++ D) ->
        0 < snd b /\ exists r, In r (fl_regs (s_fl (hs_st h))) /\ inside b r) /\
     (forall it, In it (hs_live h) -> i_kind it = true ->
        fst (i_blk it) <= i_ptr it + 16 - (if i_word it =? 0 then gsz else i_word it) /\
@@ -484,7 +482,7 @@ Section Oracle.
        | RBad => False
        end).
   Proof.
-    intros ops h H. destruct (srun_inv ops hs_init h SInv_init H) as ((HP & _ & HI) & HW & _ & _).
+    intros ops h0 h H0 H. destruct (srun_inv ops h0 h H0 H) as ((HP & _ & HI) & HW & _ & _).
     split; [exact HP|]. split; [exact HI|].
     intros it Hit Hk. rewrite Forall_forall in HW. destruct (HW it Hit Hk) as (Hl & Hc1 & Hc2 & Hsh).
     unfold release_target. rewrite Hl.
@@ -496,3 +494,99 @@ Section Oracle.
       rewrite Hci. rewrite Hblk in *. cbn [fst snd] in *. repeat split; try lia; try exact Hwn.
   Qed.
 End Oracle.
+
+(** one run of the library (no re-initialisation): nothing was dropped before *)
+Theorem stack_histories : forall mmap gsz dsz,
+  (forall regs len r, 0 < len -> In r regs -> disj (mmap regs len, len) r) ->
+  16 <= gsz /\ gsz + 4095 < 2 ^ 64 -> 1 <= dsz /\ dsz + 4095 < 2 ^ 64 ->
+  forall ops h, srun mmap gsz dsz ops hs_init = Some h ->
+    pairwise (all_blocks gsz dsz h) /\
+    (forall b, In b (all_blocks gsz dsz h) ->
+       0 < snd b /\ exists r, In r (fl_regs (s_fl (hs_st h))) /\ inside b r) /\
+    (forall it, In it (hs_live h) -> i_kind it = true ->
+       fst (i_blk it) <= i_ptr it + 16 - (if i_word it =? 0 then gsz else i_word it) /\
+       i_ptr it + 16 <= fst (i_blk it) + snd (i_blk it) /\
+       match release_target (s_mem (hs_st h)) (i_ptr it) with
+       | RDefault t => i_word it = 0 /\ t = i_ptr it /\ i_blk it = def_blk gsz t
+       | RClass i s => i_word it <> 0 /\ i_blk it = (s, 2 ^ i)
+       | RBad => False
+       end).
+Proof.
+  intros mmap gsz dsz Hf Hg Hd ops h H.
+  assert (H0 : SInv gsz dsz [] hs_init).
+  { apply (SInv_start gsz dsz [] [] []). split; [exact I|]. split; [exact I|]. intros b []. }
+  pose proof (stack_histories_from mmap gsz dsz [] Hf Hg Hd ops hs_init h H0 H) as HH.
+  rewrite app_nil_r in HH. exact HH.
+Qed.
+
+(** * epochs *)
+Lemma gsz_valid_ok g : gsz_valid g = true -> 16 <= g /\ g + 4095 < 2 ^ 64.
+Proof.
+  unfold gsz_valid. intros H. apply andb_true_iff in H. destruct H as (H1 & H2).
+  apply Z.leb_le in H1. apply Z.ltb_lt in H2. auto.
+Qed.
+
+Section Epochs.
+  Variable mmap : list region -> Z -> Z.
+  Variable dsz : Z.
+  Hypothesis mmap_fresh : forall regs len r, 0 < len -> In r regs -> disj (mmap regs len, len) r.
+  Hypothesis dsz_ok : 1 <= dsz /\ dsz + 4095 < 2 ^ 64.
+
+  (** the invariant survives myth_fini / myth_init_ex: what was cached joins the dropped blocks *)
+  Lemma SInv_epoch g g' Dr h : SInv g dsz Dr h -> hs_live h = [] ->
+    SInv g' dsz (free_blocks g dsz (hs_st h) ++ Dr) (mkHs (epoch_reset (hs_st h)) []).
+  Proof.
+    intros (HB & _) Hl. unfold epoch_reset. apply SInv_start.
+    unfold all_blocks in HB. rewrite Hl in HB. cbn [map app] in HB. exact HB.
+  Qed.
+
+  Lemma erun_inv : forall epochs h Dr g h' Dr' g',
+    SInv g dsz Dr h -> erun mmap dsz epochs h Dr g = Some (h', Dr', g') -> SInv g' dsz Dr' h'.
+  Proof.
+    induction epochs as [|[g1 ops] rest IH]; intros h Dr g h' Dr' g' Hinv H; cbn [erun] in H.
+    - injection H as <- <- <-. exact Hinv.
+    - destruct (hs_live h) eqn:El; [|discriminate].
+      destruct (gsz_valid g1) eqn:Eg; [|discriminate].
+      destruct (srun mmap g1 dsz ops (mkHs (epoch_reset (hs_st h)) [])) as [h1|] eqn:Er; [|discriminate].
+      eapply IH; [|exact H].
+      eapply (srun_inv mmap g1 dsz _ mmap_fresh (gsz_valid_ok _ Eg) dsz_ok); [|exact Er].
+      apply SInv_epoch; assumption.
+  Qed.
+
+  (** C12_epoch_histories: over any number of myth_init_ex / myth_fini cycles with any valid
+      default stack sizes: the blocks in use or cached in the current epoch are pairwise
+      disjoint AND disjoint from every block that sat in a list dropped at an earlier
+      myth_fini (with the extent it had then): whatever is handed out after a re-initialisation
+      is fresh from mmap or was released in the current epoch.  The size words of the live
+      stacks are intact and a default stack extends over the default size of its own epoch. *)
+  Theorem epoch_histories : forall epochs g0 h Dr g,
+    erun mmap dsz epochs hs_init [] g0 = Some (h, Dr, g) -> epochs <> [] ->
+    pairwise (all_blocks g dsz h ++ Dr) /\
+    (forall b, In b (all_blocks g dsz h ++ Dr) ->
+       0 < snd b /\ exists r, In r (fl_regs (s_fl (hs_st h))) /\ inside b r) /\
+    (forall it, In it (hs_live h) -> i_kind it = true ->
+       fst (i_blk it) <= i_ptr it + 16 - (if i_word it =? 0 then g else i_word it) /\
+       i_ptr it + 16 <= fst (i_blk it) + snd (i_blk it) /\
+       match release_target (s_mem (hs_st h)) (i_ptr it) with
+       | RDefault t => i_word it = 0 /\ t = i_ptr it /\ i_blk it = def_blk g t
+       | RClass i s => i_word it <> 0 /\ i_blk it = (s, 2 ^ i)
+       | RBad => False
+       end).
+  Proof.
+    intros epochs g0 h Dr g H Hne.
+    assert (H0 : SInv g0 dsz [] hs_init).
+    { apply (SInv_start g0 dsz [] [] []). split; [exact I|]. split; [exact I|]. intros b []. }
+    (* the default size in force at the end is valid: it was checked when its epoch started *)
+    assert (Hg : 16 <= g /\ g + 4095 < 2 ^ 64).
+    { clear H0. revert g0 H. generalize hs_init, (@nil (Z * Z)).
+      induction epochs as [|[g1 ops] rest IH]; [contradiction|]. intros h0 D0 g0 H. cbn [erun] in H.
+      destruct (hs_live h0); [|discriminate].
+      destruct (gsz_valid g1) eqn:Eg; [|discriminate].
+      destruct (srun mmap g1 dsz ops _) as [h1|]; [|discriminate].
+      destruct rest as [|e rest'].
+      - cbn [erun] in H. injection H as _ _ <-. apply gsz_valid_ok. exact Eg.
+      - eapply IH; [discriminate|exact H]. }
+    pose proof (erun_inv epochs hs_init [] g0 h Dr g H0 H) as Hinv.
+    apply (stack_histories_from mmap g dsz Dr mmap_fresh Hg dsz_ok [] h h Hinv). reflexivity.
+  Qed.
+End Epochs.
